@@ -3,11 +3,12 @@ From Coq Require Import List String.
 From VQ.Gen Require Import pat_rvq_decode.
 Import ListNotations.
 Open Scope string_scope.
-Lemma pin_pat_rvq_decode : pat_rvq_decode =
+Definition pinned_pat_rvq_decode : list (string * string) :=
   [("pack", "b * q");
    ("get_at", "q [c] d, b n q -> q b n d");
    ("get_at", "b n [c] d, b n -> b n d");
    ("get_at", "[c] d, b n -> b n d");
    ("rearrange", "b n q -> q b n 1");
    ("unpack", "q b * d")].
+Lemma pin_pat_rvq_decode : pat_rvq_decode = pinned_pat_rvq_decode.
 Proof. reflexivity. Qed.
